@@ -50,6 +50,7 @@ type scnSpec struct {
 	vn     string // none | ok | fail
 	chain  string // short | long
 	zrtt   string // none | accept | reject | reject-params (session resumption with 0-RTT data)
+	net    string // ok | blackhole | hsblock: paths on which the handshake cannot complete (timeouts)
 }
 
 type faultSpec struct {
@@ -123,6 +124,7 @@ type scenario struct {
 	hsDone   bool
 	done     chan struct{}
 	resetCh  chan struct{}
+	auth     []string
 	cands    []protocol.ConnectionID // destination connection IDs the client has used
 	srvSCIDs [][]byte                // source connection IDs seen in genuine server long-header packets
 	retrySCIDs [][]byte
@@ -981,6 +983,7 @@ func (sc *scenario) run() (out *outcome) {
 	defer func() { rand.Reader = savedRand }()
 	protocol.VerifSeedGrease(sc.seed)
 	sc.nw = newGnet(oneWay, sc.faults)
+	sc.nw.mode = sc.spec.net
 	sc.rec = &recorder{}
 	sc.seen = map[int]map[string]bool{}
 	sc.buffered = map[int][]partSum{}
@@ -1208,7 +1211,81 @@ func (sc *scenario) run() (out *outcome) {
 	for _, d := range sc.trace {
 		d.line = d.render()
 	}
+	sc.authLines(conns)
 	return
+}
+
+// authLines: the real checkTransportParameters of the last client connection, asked about parameter sets
+// that match its state or deviate from it in one field (correspondence for the Auth model).
+func (sc *scenario) authLines(conns []*quic.Conn) {
+	if len(conns) == 0 {
+		return
+	}
+	c := conns[len(conns)-1]
+	g := c.VerifGateState()
+	r := vh.NewRand(sc.seed ^ 0xa07)
+	other := func(b []byte) []byte {
+		o := append([]byte(nil), b...)
+		if len(o) == 0 {
+			return []byte{1}
+		}
+		o[r.Intn(len(o))] ^= byte(1 + r.Intn(255))
+		return o
+	}
+	type v struct {
+		isc, odc, rsc []byte
+		has           bool
+	}
+	base := v{g.HandshakeDestConnID, g.OrigDestConnID, g.RetrySrcConnID, g.HasRetrySrcConnID}
+	vs := []v{base}
+	w := base
+	w.isc = other(base.isc)
+	vs = append(vs, w)
+	w = base
+	w.odc = other(base.odc)
+	vs = append(vs, w)
+	w = base
+	w.has = !base.has
+	if w.has {
+		w.rsc = r.Bytes(4 + r.Intn(8))
+	}
+	vs = append(vs, w)
+	if base.has {
+		w = base
+		w.rsc = other(base.rsc)
+		vs = append(vs, w)
+	}
+	w = base // a prefix of the right ID is not the right ID
+	if len(base.isc) > 1 {
+		w.isc = base.isc[:len(base.isc)-1]
+		vs = append(vs, w)
+	}
+	for _, x := range vs {
+		err := c.VerifCheckCIDParams(x.isc, x.odc, x.rsc, x.has)
+		res := "ok"
+		if err != nil {
+			m := err.Error()
+			switch {
+			case strings.HasPrefix(m, "expected initial_source_connection_id"):
+				res = "E:isc"
+			case strings.HasPrefix(m, "expected original_destination_connection_id"):
+				res = "E:odc"
+			case strings.HasPrefix(m, "missing retry_source_connection_id"):
+				res = "E:rsc_missing"
+			case strings.HasPrefix(m, "expected retry_source_connection_id"):
+				res = "E:rsc_wrong"
+			case strings.HasPrefix(m, "received retry_source_connection_id"):
+				res = "E:rsc_unexpected"
+			default:
+				res = "E:other"
+			}
+		}
+		rsc := "-"
+		if x.has {
+			rsc = cidTxt(x.rsc)
+		}
+		sc.auth = append(sc.auth, fmt.Sprintf("%s ; isc=%s odc=%s rsc=%s | %s", stateTxt(g, true), cidTxt(x.isc), cidTxt(x.odc), rsc, res))
+	}
 }
 
 func sortedKeys(m map[string]string) []string {
